@@ -30,6 +30,16 @@ def r1(ctx, rep):
     import C02
     rep.borrowed(C01.r3, ctx, "C06.R1", "consecutive filters of one SELECT are joined with AND, in order")
     rep.borrowed(C02.r2, ctx, "C06.R1b", "`&&` is std.and", only=r"And|and")
+    # .. and there is no second way of joining them: an AND built directly from translated conditions has no operand check, so a filter that
+    # is a disjunction loses its parentheses (`f1 AND a OR b AND f3`)
+    rep.borrowed(C02.r11, ctx, "C06.R1c", "conditions are joined only through operand-checked constructs", only=r"gen_query::(filter_of_conditions|all)|sql::gen_query")
+
+
+def r5(ctx, rep):
+    # `let x = (from t | sort a)` + `from x | take 3` must take by the order of x, like the inline pipeline does: the sorting of a referenced
+    # relation is inherited by the pipeline that continues from it, and a take without a sort of its own is ordered by it
+    import C03
+    rep.borrowed(C03.r1_r2, ctx, "C06.R5", "a pipeline that continues from a let-bound relation inherits its order", only=r"inherit|sort-before-take|main-end")
 
 
 def r2(ctx, rep):
@@ -126,5 +136,5 @@ def r4(ctx, rep):
 
 
 def run(ctx, rep):
-    for r in (r1, r2, r3, r4):
+    for r in (r1, r2, r3, r4, r5):
         rep.guard(r, ctx)
